@@ -19,7 +19,7 @@ func init() {
 		Run: c06,
 		Explanation: "Decides the ordering and provenance that make a claim bind exactly one XR, for both syncers: (R6.1/R6.2) the XR write is reached only over the success edge of a full client.Update of the claim that follows SetResourceReference(reference of the very XR object written) — the client-side syncer may skip that Update only on the edge where the recorded and the proposed reference compare equal; the claim is written with Update (resourceVersion-checked), never Patch/Apply, before the XR; " +
 			"(R6.3) the name of the written XR is taken from cm.GetResourceReference().Name on its non-nil edge before any name is generated, and no other SetName touches it; GenerateName is only reached when no name is set / the XR was not created; (R6.4) in the claim reconciler every effect on the XR (field-manager upgrade, delete, sync) is dominated by the claimRef comparison and unreachable from its not-equal edge; " +
-			"(R6.5) the claim reference written to the XR is cm.GetReference().",
+			"(R6.5) the claim reference written to the XR is cm.GetReference(). (R6.6) the name generator hands out a name only on the IsNotFound edge of its probe, sets the name it probed and never renames.",
 		NotDecided:  []string{"optimistic-concurrency behaviour of the API server", "stale caches", "interleavings with the XR reconciler and claim deletion", "generated-name collisions (the code concedes a hijack is possible then)"},
 		Assumptions: []string{"client.Update carries the read resourceVersion and is rejected when stale", "names.NameGenerator does not rename (decided in C01 R1.3)"},
 	})
